@@ -75,7 +75,8 @@ Definition set_spec (q : quota) (mx : vec) (mindecl : mask) (mn w : vec) : quota
 Record pod := mkPod {
   p_id : Z; p_quota : Z;
   p_req : vec; p_keys : mask;     (* requests of the pod and which keys they carry (an explicit 0 is a key) *)
-  p_np : bool; p_assigned : bool }.
+  p_np : bool; p_assigned : bool;
+  p_bound : bool }.               (* the pod object carries a node name (a bound pod replayed by the informer) *)
 
 Record state := mkState { quotas : list quota; pods : list pod; total : vec }.
 Record config := mkConfig { rt_on : bool; chk_parent : bool }.
@@ -214,7 +215,12 @@ Definition refresh (ids : list Z) (qs : list quota) (ps : list pod) : list quota
   map (fun q => if mem_id (q_id q) ids then set_creq q (vmk (limreq (length qs) qs ps q)) else q) qs.
 Definition vec_zerob (v : vec) : bool := all_dims (fun d => vget v d =? 0).
 Definition set_assigned (id : Z) (b : bool) (ps : list pod) : list pod :=
-  map (fun p => if p_id p =? id then mkPod (p_id p) (p_quota p) (p_req p) (p_keys p) (p_np p) b else p) ps.
+  map (fun p => if p_id p =? id then mkPod (p_id p) (p_quota p) (p_req p) (p_keys p) (p_np p) b (p_bound p) else p) ps.
+(* the preemptible label of a pod flips *)
+Definition flip_np (p : pod) : pod :=
+  mkPod (p_id p) (p_quota p) (p_req p) (p_keys p) (negb (p_np p)) (p_assigned p) (p_bound p).
+Definition set_np (id : Z) (ps : list pod) : list pod :=
+  map (fun p => if p_id p =? id then flip_np p else p) ps.
 Definition remove_pod (id : Z) (ps : list pod) : list pod :=
   filter (fun p => negb (p_id p =? id)) ps.
 
@@ -253,6 +259,7 @@ Inductive op :=
 | OCapacity (t : vec)
 | OPodAddBound (id quota : Z) (np : bool) (req : vec) (keys : mask)  (* already-bound pod replayed by the informer *)
 | OQuotaFlipLend (id : Z)    (* allow-lent-resource label flipped: a META change, UpdateQuota rebuilds the whole tree *)
+| OPodRelabel (id : Z)       (* pod update event that only flips the pod's preemptible label *)
 | ONop.
 
 (* what is logged after every operation *)
@@ -320,7 +327,7 @@ Definition step (cfg : config) (st : state) (o : op) : state * obs :=
   | OPodAdd id qn np req keys =>
     match find_pod id (pods st), find_quota qn (quotas st) with
     | None, Some _ =>
-      let p := mkPod id qn req keys np false in
+      let p := mkPod id qn req keys np false false in
       let ps := pods st ++ [p] in
       plain (mkState (touch_request st p (quotas st) ps) ps (total st))
     | _, _ => skip
@@ -328,7 +335,7 @@ Definition step (cfg : config) (st : state) (o : op) : state * obs :=
   | OPodAddBound id qn np req keys =>
     match find_pod id (pods st), find_quota qn (quotas st) with
     | None, Some _ =>
-      let p := mkPod id qn req keys np false in
+      let p := mkPod id qn req keys np false true in
       let ps := pods st ++ [p] in
       let qs := touch_request st p (taint_ids (map q_id (path st qn)) (quotas st)) ps in
       plain (charge (mkState qs ps (total st)) p)
@@ -379,6 +386,26 @@ Definition step (cfg : config) (st : state) (o : op) : state * obs :=
          quota's request re-propagated bottom-up; used / non-preemptible used are carried over *)
       let qs1 := map (fun q => if q_id q =? id then set_lend q (negb (q_lend q)) else q) (quotas st) in
       plain (mkState (refresh (map q_id qs1) qs1 (pods st)) (pods st) (total st))
+    end
+  | OPodRelabel id =>
+    match find_pod id (pods st) with
+    | None => skip
+    | Some p =>
+      (* OnPodUpdate: the request delta is zero but the non-preemptible request changes, so the path
+         is walked.  An assigned pod's request moves into / out of the non-preemptible used; a pod
+         that is not assigned but carries a node name is assigned on the spot (no admission). *)
+      let p' := flip_np p in
+      let ps := set_np id (pods st) in
+      let ids := map q_id (path st (p_quota p)) in
+      let dl := pod_delta st p in
+      if p_assigned p
+      then plain (mkState (touch_request st p'
+                             (upd_used ids (fun u => u)
+                                       (fun u => if p_np p then vsub_clamp u dl else vadd u dl) (quotas st)) ps)
+                          ps (total st))
+      else if p_bound p
+      then plain (charge (mkState (touch_request st p' (taint_ids ids (quotas st)) ps) ps (total st)) p')
+      else plain (mkState (touch_request st p' (quotas st) ps) ps (total st))
     end
   | OCapacity t => plain (mkState (quotas st) (pods st) t)
   | ONop => skip
